@@ -28,6 +28,12 @@ func checkC07(p *Prog, r *Report) {
 		r.unresolved("E4.maporder", "hash roots in packages build/core (found "+itoa(len(roots))+")")
 		return
 	}
+	// what the hashes and expanded commands are computed from: dependency resolution and require/provide
+	for _, n := range [][2]string{{"core", "BuildTarget.provideFor"}, {"core", "BuildTarget.ProvideFor"}, {"core", "BuildTarget.resolveOneDependency"}, {"core", "BuildTarget.resolveDependencies"}, {"core", "BuildTarget.DependenciesFor"}, {"core", "IterInputs"}, {"core", "IterSources"}, {"core", "IterRuntimeFiles"}, {"core", "replaceSequenceLabel"}} {
+		if f := p.Fn(n[0], n[1]); f != nil {
+			roots = append(roots, f)
+		}
+	}
 	n := p.runMapOrder(r, "E4.maporder", roots, 5, inRepoPkgs("build", "core", "fs"))
 	if n < 8 {
 		r.unresolved("E4.maporder", "map ranges in the hash closure (found "+itoa(n)+")")
